@@ -595,12 +595,14 @@ func (o *Char) UnmarshalBinary(data []byte) error {
 func (o Float) MarshalBinary() ([]byte, error) {
 	buf := make([]byte, 2+binary.MaxVarintLen64)
 	buf[0] = binFloatV1
-	if o == 0 {
+	bits := math.Float64bits(float64(o))
+	if bits == 0 {
+		// only +0.0 is elided; -0.0 has the sign bit set
 		buf[1] = 0
 		return buf[:2], nil
 	}
 
-	n := binary.PutUvarint(buf[2:], math.Float64bits(float64(o)))
+	n := binary.PutUvarint(buf[2:], bits)
 	buf[1] = byte(n)
 	return buf[:2+n], nil
 }
